@@ -234,12 +234,23 @@ func genScenario(r *rng.R) (*Scenario, []string) {
 	if r.Chance(1, 3) {
 		sc.Side = "I"
 		sc.Target, sc.Sender = "Server", "Client"
-		sc.Password, sc.Username = "secret", "usr"
+		// credentials: both, a password alone (token-style logon), a user name alone, none
+		switch r.Intn(6) {
+		case 0:
+			sc.Password, sc.Username = "token-1234", ""
+		case 1:
+			sc.Password, sc.Username = "", "usr"
+		case 2:
+			sc.Password, sc.Username = "", ""
+		default:
+			sc.Password, sc.Username = "secret", "usr"
+		}
 		sc.Hb = r.Range(25, 60)
 	}
 	if r.Chance(1, 4) {
 		sc.Allowed = []string{"0", "3"}
 	}
+	sc.SeqReset = r.Chance(1, 2)
 	lims := [][2]int{{20, 60}, {30, 30}, {25, 40}, {20, 1000}, {-1, 60}, {-3, 30}}
 	l := lims[r.Intn(len(lims))]
 	sc.Lo, sc.Hi = l[0], l[1]
@@ -280,7 +291,7 @@ func genScenario(r *rng.R) (*Scenario, []string) {
 		if !acc {
 			g.refusing = true
 		}
-		mts := []string{"ALL", "ALL", "0", "1", "A", "3", "5", "Y", "2"}
+		mts := []string{"ALL", "ALL", "0", "1", "A", "3", "5", "Y", "2", "a", "y", "all"} // message types are case-sensitive: a is not A
 		mt := mts[r.Intn(len(mts))]
 		if r.Bool() {
 			return Op{Kind: "REGIN", Mt: mt, ID: id, Flag: acc}
@@ -349,9 +360,13 @@ func genScenario(r *rng.R) (*Scenario, []string) {
 			sc.Ops = append(sc.Ops, g.admin("5", "", "logout"))
 			loggedGuess = false
 		case c < 69:
-			mt := []string{"Y", "D", "ZZ", "ALL", "8"}[r.Intn(5)]
+			mt := []string{"Y", "D", "ZZ", "ALL", "8", "y", "a", "all", "4", "4"}[r.Intn(10)]
 			sf, seq := g.seqField(0)
-			sc.Ops = append(sc.Ops, Op{Kind: "IN", Data: g.p.msg(mt, sf, "262=r1\x0158="+nasty(r)+"\x01"), Label: "app", Seq: seq})
+			body := "262=r1\x0158=" + nasty(r) + "\x01"
+			if mt == "4" { // a SequenceReset (gap fill): recorded like any message unless the session knows the type
+				body = "123=Y\x0136=" + strconv.Itoa(seq+1+r.Intn(3)) + "\x01"
+			}
+			sc.Ops = append(sc.Ops, Op{Kind: "IN", Data: g.p.msg(mt, sf, body), Label: "app", Seq: seq})
 		case c < 71:
 			// no MsgType at all
 			sc.Ops = append(sc.Ops, Op{Kind: "IN", Data: frameMsg("49=X\x0134=1\x01"), Label: "nomsgtype", Seq: 1})
